@@ -25,7 +25,7 @@ func Desc(v ssa.Value) string {
 	return descN(v, 0, map[ssa.Value]bool{})
 }
 
-const maxDescDepth = 18
+const maxDescDepth = 40
 
 var fieldChainRe = regexp.MustCompile(`(\.&\w+)+$`)
 
